@@ -508,51 +508,67 @@ func classifyBody(b *evalgen.BodyCase, roots map[string]int, want []string) stri
 		}
 		return ""
 	}
-	// find the innermost block type that contains a free reference to a missing name
+	// find the first position that holds a free reference (iterators of enclosing dynamic blocks are
+	// bound) to a missing name
 	kind := ""
-	var walk func(body *lib.Node, items []evalgen.SpecItem, path string)
-	walk = func(body *lib.Node, items []evalgen.SpecItem, path string) {
+	freeMissing := func(e *lib.Node, bound []string) bool {
+		for _, v := range evalgen.FreeVars(e) {
+			if contains(missing, v) && !contains(bound, v) {
+				return true
+			}
+		}
+		return false
+	}
+	var walk func(body *lib.Node, items []evalgen.SpecItem, path string, bound []string)
+	walk = func(body *lib.Node, items []evalgen.SpecItem, path string, bound []string) {
 		for _, k := range body.Kids {
 			switch {
 			case k.K == "attrdef":
-				for _, v := range evalgen.FreeVars(k.Kids[0]) {
-					if contains(missing, v) && kind == "" {
-						kind = path + "attr"
-					}
+				if kind == "" && freeMissing(k.Kids[0], bound) {
+					kind = path + "attr"
 				}
 			case k.K == "block":
 				typ := k.S
 				inner := k.Kids[len(k.Kids)-1]
+				nb := bound
+				var contents []*lib.Node
 				if typ == "dynamic" && len(k.Kids) >= 2 {
 					typ = k.Kids[0].S
+					iter := typ
 					for _, a := range inner.Kids {
-						if a.K == "attrdef" && (a.S == "for_each" || a.S == "labels") {
-							for _, v := range evalgen.FreeVars(a.Kids[0]) {
-								if contains(missing, v) && kind == "" {
-									kind = path + "dynamic-" + a.S
-								}
-							}
+						if a.K == "attrdef" && a.S == "iterator" && a.Kids[0].K == "var" {
+							iter = a.Kids[0].S
 						}
 					}
+					nb = append(append([]string{}, bound...), iter)
+					for _, a := range inner.Kids {
+						switch {
+						case a.K == "attrdef" && a.S == "for_each":
+							if kind == "" && freeMissing(a.Kids[0], bound) {
+								kind = path + "dynamic-for_each"
+							}
+						case a.K == "attrdef" && a.S == "labels":
+							if kind == "" && freeMissing(a.Kids[0], nb) {
+								kind = path + "dynamic-labels"
+							}
+						case a.K == "block" && a.S == "content":
+							contents = append(contents, a.Kids[len(a.Kids)-1])
+						}
+					}
+				} else {
+					contents = []*lib.Node{inner}
 				}
 				for _, it := range items {
 					if it.Name == typ && it.IsBlock() {
-						sub := inner
-						if k.S == "dynamic" {
-							for _, cb := range inner.Kids {
-								if cb.K == "block" && cb.S == "content" {
-									walk(cb.Kids[len(cb.Kids)-1], it.Nested, path+it.Kind+"/")
-								}
-							}
-							continue
+						for _, c := range contents {
+							walk(c, it.Nested, path+it.Kind+"/", nb)
 						}
-						walk(sub, it.Nested, path+it.Kind+"/")
 					}
 				}
 			}
 		}
 	}
-	walk(b.Tree, b.Items, "")
+	walk(b.Tree, b.Items, "", nil)
 	if kind == "" {
 		return ""
 	}
@@ -704,7 +720,11 @@ func run(cx *lib.Ctx) {
 	}
 	for i := 0; i < nb; i++ {
 		r := R.Fork()
-		b, ok := evalgen.NewBodyCase(r, evalgen.Defaults(), 55, 0)
+		o := evalgen.Defaults()
+		// half of the bodies avoid BlockAttrsSpec, whose known defect (see the findings) would otherwise
+		// be the first thing reported for most bodies
+		o.NoBlockAttrs = i%2 == 0
+		b, ok := evalgen.NewBodyCase(r, o, 55, 0)
 		if !ok {
 			res.Count("gen-body-parse-error")
 			continue
